@@ -180,6 +180,12 @@ RESULTS = {
     "cstr_raw": dict(yaml="const char *", attrs=" +deref(raw)", cxx="const char *", ty="none", returns=True,
                      lib_make='static char raw_[8]; raw_[0] = (char)(65 + acc % 26); raw_[1] = 0; const char *rv = raw_;',
                      c_decl="", c_out=""),
+    # rank-2 pointer result copied into an allocatable (docs/pointers.rst +deref(allocatable)): logged with its
+    # two extents in front of the elements
+    "iptr23": dict(yaml="int *", attrs=" +dimension(2,3)+deref(allocatable)", cxx="int *", ty="arri",
+                   lib_make="static int a23_[6]; for (int i_ = 0; i_ < 6; i_++) a23_[i_] = (int)(acc % 50) + i_ * 7; int *rv = a23_;",
+                   lib_out="{ int t_[8] = { 2, 3, rv[0], rv[1], rv[2], rv[3], rv[4], rv[5] }; vt_arr_int(t_, 8); }",
+                   c_decl="int *rv;", c_out="{ int t_[8] = { 2, 3, rv[0], rv[1], rv[2], rv[3], rv[4], rv[5] }; vt_arr_int(t_, 8); }"),
     # pointer result with a declared extent (docs/pointers.rst): a Fortran pointer to the library's memory
     "iptr3": dict(yaml="int *", attrs=" +dimension(3)", cxx="int *", ty="arri",
                   lib_make="static int arr_[3]; arr_[0] = (int)(acc % 100); arr_[1] = arr_[0] + 1; arr_[2] = -arr_[0]; int *rv = arr_;",
@@ -213,6 +219,9 @@ def base_cases():
     c.append(F("f14", "int", [P("int_v", "a"), P("cstr_in", "s")], overload=2))
     c.append(F("f15", "T", [P("T_v", "a")], template=["int", "double"]))
     c.append(F("f16", "bool", [P("bool_pinout", "flag"), P("bool_v", "g")]))
+    # default_arg_suffix naming only the shortest form (docs/reference.rst): the other forms keep their numbers
+    c.append(F("f22", "int", [P("int_v", "a"), P("int_v", "b", default="5"), P("double_v", "c", default="2.5")],
+               yaml_extra={"default_arg_suffix": ["_short"]}))
     # a function template whose parameter list mixes the template parameter with ordinary parameters (docs/templates.rst)
     c.append(F("f20", "T", [P("T_v", "a"), P("int_v", "n"), P("dbl_pout", "o")], template=["int", "double"]))
     c.append(F("f21", "int", [P("int_v", "k"), P("T_v", "a")], template=["int", "double"]))
@@ -307,6 +316,8 @@ FRESULTS = {
     "pt": dict(decl="type(pt) :: rv", fout="call vt_arr_int([rv%x, int(rv%y * 4, C_INT)], 2_C_LONG)"),
     "iptr3": dict(decl="integer(C_INT), pointer :: rv(:)", fout="call vt_arr_int(rv, size(rv, kind=C_LONG))", ptr=True),
     "cptr_raw": dict(decl="type(C_PTR) :: rv"),
+    "iptr23": dict(decl="integer(C_INT), allocatable :: rv(:,:)",
+                   fout="call vt_arr_int([int(size(rv, 1), C_INT), int(size(rv, 2), C_INT), reshape(rv, [size(rv)])], int(size(rv), C_LONG) + 2_C_LONG)"),
 }
 
 
@@ -316,6 +327,7 @@ def vector_cases():
             F("v2", "void", [P("vec_inout", "v")]),
             F("v3", "int", [P("int_v", "k"), P("vec_out_alloc", "v")]),
             F("v4", "iptr3", [P("int_v", "k")]),
+            F("v11", "iptr23", [P("int_v", "k")]),
             F("v10", "cptr_raw", [P("str_cref", "s"), P("str_ref_inout", "t"), P("int_v", "k")]),
             F("v9", "int", [P("vec_inout_alloc", "v"), P("int_v", "k")]),
             F("v5", "double", [P("vec_in", "a"), P("vec_inout", "b"), P("vec_out_alloc", "c")]),
